@@ -351,10 +351,12 @@ class FactoriesC(DatasetC):
                                                       'catch_filter_exception': 'catch_filter_exception'}),
                              {'num_workers': 'int', 'buffer_size': 'int', 'backend': (lambda e, s: StrV('t')),
                               'catch_filter_exception': 'none'}, props=('C01', 'C04', 'C08'))],
+        # split / shard are combinators like the others (C01: what a shard iterates) and `shard(k, i) == split(k)[i]` is the
+        # documented equivalence behind the partition laws (C16)
         'split': [Variant('split', params={'sections': 'int'}, post=_split_post, hooks=_ds_method_hooks(),
-                          props=('C15',))],
+                          props=('C15', 'C01', 'C16'))],
         'shard': [Variant('shard', params={'num_shards': 'int', 'shard_index': 'int'}, post=_shard_post,
-                          hooks=_shard_hooks(), props=('C15',))],
+                          hooks=_shard_hooks(), props=('C15', 'C01', 'C16'))],
         'sort': [Variant('by-keys', params={'key_fn': 'none', 'sort_fn': 'fn', 'reverse': 'bool'},
                          post=_sort_post(False), hooks=_sort_hooks(), props=('C18',)),
                  Variant('by-key_fn', params={'key_fn': 'fn', 'sort_fn': 'fn', 'reverse': 'bool'},
@@ -462,6 +464,53 @@ FactoriesC.methods['tile'] = [Variant('no-shuffle', params={'reps': 'int', 'shuf
                                       hooks=_tile_hooks(), props=('C01', 'C08', 'C16'))]
 
 
+def _tile_shuffle_hooks():
+    h = _tile_hooks()
+    base = h.get('any_method')
+
+    def any_method(eng, st, recv, name, args, kwargs):
+        if isinstance(recv, DSRefV) and name == 'shuffle' and not args and not kwargs:
+            # one call of the shuffle factory (its own contract: Dataset.shuffle[...]): a NEW one-time permutation per call
+            eng.log_effect(st, ('factory-call', 'shuffle', recv))
+            return [(st, StageV('Dataset.shuffle()', [recv], {}))]
+        return base(eng, st, recv, name, args, kwargs) if base else None
+    h['any_method'] = any_method
+    return h
+
+
+def _tile_shuffle_post(S, o):
+    """tile(reps, shuffle=True) is the concatenation of `reps` INDEPENDENT shuffles of the dataset: shuffle() is called once
+    per repetition (a forall-block of length reps in the effect log, no other call) and every part is such a call's result"""
+    reps = S.old.reps
+    if o.kind == 'raise':
+        return [('tile:rejects-only-reps<1', reps < 1)]
+    v = o.value
+    log = S.st.ghost.get('log', ())
+    blocks = [e for e in log if e[0] == 'forall']
+    loose = [e for e in log if e[0] == 'factory-call']
+
+    def is_shuffled(el):
+        return isinstance(el, StageV) and el.cls == 'Dataset.shuffle()' and isinstance(el.args[0], DSRefV)
+    # number of shuffle() calls made: every forall-block holds one call per index, plus the calls outside of blocks
+    only_calls = all(len(b_[3]) == 1 and b_[3][0][0] == 'factory-call' for b_ in blocks)
+    calls = sum([b_[2] for b_ in blocks], I(0)) + len(loose)
+    n_calls = ('C16:one-shuffle-call-per-repetition', z3.And(z3.BoolVal(only_calls), calls == reps))
+    if isinstance(v, StageV) and v.cls == 'Dataset.shuffle()':
+        # reps == 1: Dataset.concatenate(x) returns x itself
+        return [('C16:tile(1,shuffle)-is-one-shuffle-of-the-dataset', z3.And(reps == 1, is_self(S, v.args[0]))), n_calls]
+    if isinstance(v, StageV) and v.cls == 'ConcatenateDataset' and isinstance(v.args[0], tuple):
+        seq = v.args[0][1]
+        j = smt.fresh('tj', smt.Int)
+        el = seq.at(j)
+        return [('C16:tile(r,shuffle)-concatenates-r-shuffles-of-the-same-dataset',
+                 z3.And(seq.length == reps, reps >= 2, is_self(S, el.args[0]) if is_shuffled(el) else smt.F)), n_calls]
+    return [('tile:result-shape', smt.F)]
+
+
+FactoriesC.methods['tile'].append(Variant('shuffle', params={'reps': 'int', 'shuffle': 'true'}, post=_tile_shuffle_post,
+                                          hooks=_tile_shuffle_hooks(), props=('C01', 'C16', 'C12')))
+
+
 # ------------------------------------------------------------------ remaining thin factories
 def _bucket_factory_post(S, o):
     env = S.eng.entry_env
@@ -541,7 +590,7 @@ class ThinFactoriesC(DatasetC):
                               post=_diskcache_post, props=('C11',))],
         'batch_map': [Variant('serial', params={'map_fn': 'fn', 'num_workers': (lambda e, s: IntV(0)), 'buffer_size': 'int',
                                                 'backend': (lambda e, s: StrV('t'))},
-                              post=_batch_map_serial_post, hooks=_thin_hooks(), props=('C08',))],
+                              post=_batch_map_serial_post, hooks=_thin_hooks(), props=('C08', 'C01', 'C04'))],
         '__call__': [Variant('call', post=lambda S, o: [('C01:calling-a-dataset-is-iterating-it',
                                                          z3.BoolVal(o.kind == 'return' and isinstance(o.value, IterV)
                                                                     and getattr(o.value, 'of_self', True)))],
